@@ -130,6 +130,7 @@ type PathState struct {
 	hashApps []hashApp
 	sigApps  []hashApp
 	hashFacts map[[2]int]bool
+	hashDepth int
 	raceSeen  map[string]bool
 	tick      int
 	atomicDepth int
